@@ -188,6 +188,27 @@ func c08Cells() []c08Cell {
 			}
 			return pkt(p, over)
 		}},
+		{"REMB.ssrcs/MarshalTo", func(r *core.Rand, l int) c08Probe {
+			// the second public encoder entry point of REMB: same limit, caller-supplied buffer
+			n, over := lvl(l, 254, 255, 256, r.Pick(257, 300, 511, 512, 513, 1000))
+			p := &rtcp.ReceiverEstimatedMaximumBitrate{SenderSSRC: r.U32(), Bitrate: gen.Bitrate(r, false)}
+			for i := 0; i < n; i++ {
+				p.SSRCs = append(p.SSRCs, r.U32())
+			}
+			var want []byte
+			if !over {
+				e, _ := ref.Encode(p, ref.Lib)
+				want = e.B
+			}
+			return c08Probe{over: over, marshal: func() ([]byte, error) {
+				buf := make([]byte, 20+4*n+r.Intn(16))
+				k, err := p.MarshalTo(buf)
+				if err != nil {
+					return nil, err
+				}
+				return buf[:k], nil
+			}, want: want, value: p}
+		}},
 		{"CCFB.metric-blocks", func(r *core.Rand, l int) c08Probe {
 			n, over := lvl(l, 16383, 16384, 16385, r.Pick(16386, 20000, 32768, 65535, 65536, 65537))
 			p := &rtcp.CCFeedbackReport{SenderSSRC: r.U32(), ReportTimestamp: r.U32()}
